@@ -946,7 +946,7 @@ def _conc_str_method(name):
     return m
 
 
-for _n in ("startswith", "endswith", "find", "rfind", "index", "count", "split", "rsplit", "replace", "strip", "lstrip",
+for _n in ("startswith", "endswith", "find", "rfind", "index", "count", "split", "rsplit", "splitlines", "replace", "strip", "lstrip",
            "rstrip", "partition", "rpartition"):
     METHOD_MODELS[(str, _n)] = _conc_str_method(_n)
 
@@ -1108,6 +1108,39 @@ def _split_impl(I, s, sep, maxsplit, from_right):
             end = p
         parts.append(mk([a.slice(0, end)]))
         parts.reverse()
+    return canon_slices(I, parts)
+
+
+_LINE_BREAKS = [(10, 13), (0x1c, 0x1e), (0x85, 0x85), (0x2028, 0x2029)]
+
+
+@str_method("splitlines")
+def _s_splitlines(I, s, args, kwargs):
+    """str.splitlines(): lines end at \n \r \r\n \v \f \x1c-\x1e \x85 \u2028 \u2029; no empty last line"""
+    keep = args[0] if args else kwargs.get("keepends", False)
+    if isinstance(keep, SYM) or keep:
+        I.unsupported("splitlines(keepends=True) of a symbolic string")
+    a = s.flat()
+    term = []          # position k ends a line (for \r\n: the \n does)
+    for k in range(a.m):
+        t = And(Lt(k, a.n), in_ranges(a.c[k], _LINE_BREAKS))
+        if k + 1 < a.m:
+            t = And(t, Not(And(Eq(a.c[k], 13), Lt(k + 1, a.n), Eq(a.c[k + 1], 10))))
+        term.append(t)
+    cnt = Sum([If(t, 1, 0) for t in term])
+    conds = [Eq(cnt, i) for i in range(MAX_SPLIT_PARTS)] + [Ge(cnt, MAX_SPLIT_PARTS)]
+    j = I.choose_feasible(conds)
+    if j == MAX_SPLIT_PARTS:
+        raise BoundExceeded("splitlines of a symbolic string into more than %d lines" % MAX_SPLIT_PARTS)
+    parts = []
+    prev = 0
+    for _ in range(j):
+        p = a.first_index([And(term[k], Le(prev, k)) for k in range(a.m)], default=a.n)
+        crlf = Or(*[And(Eq(p, k), Eq(a.c[k], 10), Le(prev, k - 1), Eq(a.c[k - 1], 13)) for k in range(1, a.m)]) if a.m > 1 else False
+        parts.append(mk([a.slice(prev, If(crlf, p - 1, p))]))
+        prev = p + 1
+    if I.decide(Lt(prev, a.n)):
+        parts.append(mk([a.slice(prev, a.n)]))
     return canon_slices(I, parts)
 
 
